@@ -12,39 +12,44 @@ use crate::engine::{guarded, pattern, show, Limits, Report, Tier, Violation};
 use crate::exch::{ExchCfg, Gate, Menu, ServerMsg};
 use crate::exch_run::{replay_exchange, run_exchanges};
 
-pub const RULE: &str = "E1: for every N in 0..=8 (Content-Length: N; response HTTP/1.0 and 1.1; also with Connection: close on either side, an HTTP/1.0 request, and an ignored Transfer-Encoding on an HTTP/1.0 response; body followed by 3 bytes of a next response, or by a stray CRLF) the complete graph over (remaining, consumed, arrived) with 1-byte arrivals and read buffers 0..=N+2; close-delimited streams of 0..=6 bytes (HTTP/1.0, HTTP/1.1, HTTP/1.1 with Connection: keep-alive, HTTP/1.0 with an ignored Transfer-Encoding) with buffers 0..=4, readiness required in every state and the must-close verdict in both successor states. E2: every N in 0..=70000 on a fresh flow: single reads with window length {0,1,N-1,N,N+1,N+3} x buffer {0,1,N-1,N,N+1}, two-step reads through the state 'one byte left', and all steps again in the completed state; large N {2^32-1,2^32+1,2^63,u64::MAX}. Part c (end to end, judged on wire bytes only): request kinds {GET, POST+Expect with the 100 read in time, POST+Expect whose 100 comes late and is skipped in RecvResponse, GET whose final response follows an interim 103, POST+Expect refused by a response that has a body} x N in 0..=8 x every two-window arrival schedule (first window = every prefix of the stream, then everything): the body handed out equals the N bytes after the head and the exchange consumes exactly up to the body's end; Content-Length values beyond u64 (2^64, 2^64+3, 20 and 23 digits) must be refused. distinct = distinct (N class, window class, buffer class, moved class) cells";
+pub const RULE: &str = "E1: for every N in 0..=8 (Content-Length: N; response HTTP/1.0 and 1.1; also with Connection: close on either side, an HTTP/1.0 request, an ignored Transfer-Encoding on an HTTP/1.0 response, and as answers to a refused CONNECT (407 / 403 / 502), DELETE and OPTIONS; body followed by 3 bytes of a next response, or by a stray CRLF) the complete graph over (remaining, consumed, arrived) with 1-byte arrivals and read buffers 0..=N+2; close-delimited streams of 0..=6 bytes (HTTP/1.0, HTTP/1.1, HTTP/1.1 with Connection: keep-alive, HTTP/1.0 with an ignored Transfer-Encoding, a refused CONNECT) with buffers 0..=4, readiness required in every state and the must-close verdict in both successor states. E2: every N in 0..=70000 on a fresh flow: single reads with window length {0,1,N-1,N,N+1,N+3} x buffer {0,1,N-1,N,N+1}, two-step reads through the state 'one byte left', and all steps again in the completed state; large N {2^32-1,2^32+1,2^63,u64::MAX}. Part c (end to end, judged on wire bytes only): request kinds {GET, POST+Expect with the 100 read in time, POST+Expect whose 100 comes late and is skipped in RecvResponse, GET whose final response follows an interim 103, POST+Expect refused by a response that has a body} x N in 0..=8 x every two-window arrival schedule (first window = every prefix of the stream, then everything): the body handed out equals the N bytes after the head and the exchange consumes exactly up to the body's end; Content-Length values beyond u64 (2^64, 2^64+3, 20 and 23 digits) must be refused. distinct = distinct (N class, window class, buffer class, moved class) cells";
 
 fn graph_cfgs() -> Vec<Arc<ExchCfg>> {
     let mut out = Vec::new();
     // the length rule must not depend on anything else in the exchange: response / request versions,
     // Connection: close on either side, a Transfer-Encoding header on an HTTP/1.0 response (ignored there)
-    let variants: [(&str, &str, &[(&str, &str)], bool); 9] = [
+    let variants: [(&str, &str, &[(&str, &str)], bool, &str); 12] = [
         // an empty-valued field ahead of the Content-Length field must not hide it
-        ("1.1", "1.1", &[("X-Request-Id", "")], false),
+        ("1.1", "1.1", &[("X-Request-Id", "")], false, "GET"),
         // a Transfer-Encoding list without any chunked element (empty element / prefix of the word) does not make it chunked
-        ("1.1", "1.1", &[("Transfer-Encoding", "gzip,")], false),
-        ("1.1", "1.1", &[("Transfer-Encoding", "chunk")], false),
-        ("1.1", "1.1", &[], false),
-        ("1.0", "1.1", &[], false),
-        ("1.1", "1.1", &[("Connection", "close")], false),
-        ("1.1", "1.0", &[], false),
-        ("1.1", "1.1", &[], true),
-        ("1.0", "1.1", &[("Transfer-Encoding", "chunked")], false),
+        ("1.1", "1.1", &[("Transfer-Encoding", "gzip,")], false, "GET"),
+        ("1.1", "1.1", &[("Transfer-Encoding", "chunk")], false, "GET"),
+        ("1.1", "1.1", &[], false, "GET"),
+        ("1.0", "1.1", &[], false, "GET"),
+        ("1.1", "1.1", &[("Connection", "close")], false, "GET"),
+        ("1.1", "1.0", &[], false, "GET"),
+        ("1.1", "1.1", &[], true, "GET"),
+        ("1.0", "1.1", &[("Transfer-Encoding", "chunked")], false, "GET"),
+        // the method matters only through the no-body rules (HEAD; CONNECT answered by 2xx): a refused CONNECT,
+        // DELETE and OPTIONS answers carry their bodies like any other
+        ("1.1", "1.1", &[], false, "CONNECT"),
+        ("1.1", "1.1", &[], false, "DELETE"),
+        ("1.1", "1.1", &[], false, "OPTIONS"),
     ];
-    for (ver, rver, extra, req_close) in variants {
+    for (ver, rver, extra, req_close, method) in variants {
         for n in 0..=8usize {
-            if !(extra.is_empty() && !req_close && rver == "1.1") && n > 4 {
+            if !(extra.is_empty() && !req_close && rver == "1.1" && method == "GET") && n > 4 {
                 continue;
             }
             let mut fields: Vec<(String, Vec<u8>)> = extra.iter().map(|(k, v)| (k.to_string(), v.as_bytes().to_vec())).collect();
             fields.push(("Content-Length".into(), n.to_string().into_bytes()));
             // statuses that carry a body like any other (205 and 203 are not special for framing)
-            let status = [200u16, 205, 203, 404, 500][n % 5];
+            let status = if method == "CONNECT" { [407u16, 403, 502, 404, 500][n % 5] } else { [200u16, 205, 203, 404, 500][n % 5] };
             let msg = RespMsg { version: ver.into(), status, reason: "OK".into(), fields, body: if n > 0 { RespBody::Raw(pattern(n)) } else { RespBody::None } };
             let mut menu = Menu::default_large();
             menu.arrive = vec![1];
             menu.read_bufs = (0..=n + 2).collect();
-            let mut rq = ReqCfg::new("GET", rver, "http://a.test/");
+            let mut rq = ReqCfg::new(method, rver, "http://a.test/");
             if req_close {
                 rq = rq.orig("connection", "close");
             }
@@ -61,21 +66,25 @@ fn graph_cfgs() -> Vec<Arc<ExchCfg>> {
             out.push(Arc::new(cfg));
         }
     }
-    for ver in ["1.1", "1.0", "1.0-te", "1.1-keep-alive"] {
+    for ver in ["1.1", "1.0", "1.0-te", "1.1-keep-alive", "1.1-connect"] {
         // close-delimited (also: HTTP/1.0 response whose Transfer-Encoding: chunked does not count)
         for len in 0..=6usize {
             for status in [200u16, 404, 205] {
+                let method = if ver == "1.1-connect" { "CONNECT" } else { "GET" };
+                // (a CONNECT that is refused: 407 / 404 / 502 instead of the 2xx that would open the tunnel)
+                let status = if method == "CONNECT" && status < 300 { 407 + (status - 200) * 19 } else { status };
                 let (ver, fields): (&str, Vec<(String, Vec<u8>)>) = match ver {
                     "1.0-te" => ("1.0", vec![("Transfer-Encoding".into(), b"chunked".to_vec())]),
                     // asking to keep the connection does not give the body a length
                     "1.1-keep-alive" => ("1.1", vec![("Connection".into(), b"keep-alive".to_vec())]),
+                    "1.1-connect" => ("1.1", vec![]),
                     v => (v, vec![]),
                 };
                 let msg = RespMsg { version: ver.into(), status, reason: "OK".into(), fields, body: RespBody::Raw(pattern(len)) };
                 let mut menu = Menu::default_large();
                 menu.arrive = vec![1];
                 menu.read_bufs = (0..=4).collect();
-                let mut cfg = ExchCfg::new("C08", ReqCfg::new("GET", "1.1", "http://a.test/"), vec![], vec![ServerMsg { msg, gate: Gate::AfterBody }], vec![], menu).expect("cfg");
+                let mut cfg = ExchCfg::new("C08", ReqCfg::new(method, "1.1", "http://a.test/"), vec![], vec![ServerMsg { msg, gate: Gate::AfterBody }], vec![], menu).expect("cfg");
                 cfg.start_at = Some("RecvBody");
                 cfg.scope = scope;
                 out.push(Arc::new(cfg));
